@@ -14,7 +14,8 @@ func FindVertexHasLabelStart(pipe []*gripql.GraphStatement) ([]string, []*gripql
 			break
 		}
 		if i == 0 {
-			if _, ok := step.GetStatement().(*gripql.GraphStatement_V); ok {
+			// only an unrestricted V() can be replaced by a label scan
+			if v, ok := step.GetStatement().(*gripql.GraphStatement_V); ok && len(protoutil.AsStringList(v.V)) == 0 {
 				//lookupV = lv
 			} else {
 				break
@@ -23,8 +24,10 @@ func FindVertexHasLabelStart(pipe []*gripql.GraphStatement) ([]string, []*gripql
 		}
 		switch s := step.GetStatement().(type) {
 		case *gripql.GraphStatement_HasLabel:
+			// the first hasLabel decides the scan; later ones stay in the pipeline as filters
 			labels = protoutil.AsStringList(s.HasLabel)
 			hasLabelLen = i + 1
+			isDone = true
 		default:
 			isDone = true
 		}
@@ -41,7 +44,7 @@ func FindEdgeHasLabelStart(pipe []*gripql.GraphStatement) ([]string, []*gripql.G
 			break
 		}
 		if i == 0 {
-			if _, ok := step.GetStatement().(*gripql.GraphStatement_E); ok {
+			if e, ok := step.GetStatement().(*gripql.GraphStatement_E); ok && len(protoutil.AsStringList(e.E)) == 0 {
 			} else {
 				break
 			}
@@ -51,6 +54,7 @@ func FindEdgeHasLabelStart(pipe []*gripql.GraphStatement) ([]string, []*gripql.G
 		case *gripql.GraphStatement_HasLabel:
 			labels = protoutil.AsStringList(s.HasLabel)
 			hasLabelLen = i + 1
+			isDone = true
 		default:
 			isDone = true
 		}
